@@ -32,6 +32,15 @@ var VerifDir = func() string {
 	return "/verif"
 }()
 
+// OutDir is where evidence and replay artefacts go: VerifDir, unless VERIF_OUT redirects them (seeded-change
+// testing, so that a run against a changed checkout does not overwrite the evidence of the real tree).
+var OutDir = func() string {
+	if v := os.Getenv("VERIF_OUT"); v != "" {
+		return v
+	}
+	return VerifDir
+}()
+
 // Ctx is what a check's Run sees in one worker.
 type Ctx struct {
 	Prop     string
@@ -392,7 +401,7 @@ func runParent(ck *Check, tier string, seed int64, nw int, race bool, budget tim
 		}
 		violations++
 		h := sha256.Sum256([]byte(f.Sig))
-		dir := filepath.Join(VerifDir, "replays", ck.ID)
+		dir := filepath.Join(OutDir, "replays", ck.ID)
 		_ = os.MkdirAll(dir, 0o755)
 		path := filepath.Join(dir, hex.EncodeToString(h[:6])+".json")
 		js, _ := json.MarshalIndent(f, "", " ")
@@ -470,7 +479,7 @@ func writeEvidence(ck *Check, tier string, seed int64, m *Report, violations, kn
 		"violations":  violations,
 	}
 	js, _ := json.MarshalIndent(ev, "", " ")
-	dir := filepath.Join(VerifDir, "evidence")
+	dir := filepath.Join(OutDir, "evidence")
 	_ = os.MkdirAll(dir, 0o755)
 	_ = os.WriteFile(filepath.Join(dir, ck.ID+".json"), append(js, '\n'), 0o644)
 }
